@@ -115,6 +115,22 @@ def live(cfg: CFG, tests: List[Containment]) -> List[Containment]:
     return out
 
 
+def live_node(cfg: CFG, node: ast.AST) -> bool:
+    """Is the expression/statement part of a CFG node that is reachable from the entry (not under 'if False')?"""
+    reach = cfg.reachable_from_entry()
+    for n in cfg.nodes:
+        if n.ast is None or n.id not in reach or n.kind not in ("test", "stmt", "for", "with"):
+            continue
+        if isinstance(n.ast, (ast.FunctionDef, ast.ClassDef)):
+            continue
+        if isinstance(n.ast, (ast.If, ast.While, ast.Try)):
+            continue
+        hays = [n.ast.iter] if n.kind == "for" else [it.context_expr for it in n.ast.items] if n.kind == "with" else [n.ast]
+        if any(node is x for h in hays for x in ast.walk(h)):
+            return True
+    return False
+
+
 def containment_quality(fn: ast.AST, c: Containment, src_pred) -> Tuple[bool, str]:
     """(ok, why) : candidate path normalised; commonprefix only with separator-terminated operands."""
     args = c.call.args[0].elts if c.call.args and isinstance(c.call.args[0], (ast.List, ast.Tuple)) else list(c.call.args)
@@ -158,6 +174,12 @@ def run(ctx) -> None:
     ctx.rule("C18.R1-archive-members", "archive member paths are normalised before the containment test and link members are checked (or filter='data')")
     ctx.rule("C18.R2-basename-destinations", "copy/link staging destinations are <working dir>/<basename of the source>")
     ctx.rule("C18.R3-manifest-keys", "os.path.join(target, <manifest key>) passes a normalising containment test before copytree/symlink")
+    ctx.rule("C18.R5-archive-own-links", "the member check does not trust realpath() for links that the archive itself creates (they are not "
+             "on disk when the check runs): extraction uses a safe filter, or each member is extracted inside the checking loop, or "
+             "member names and link targets that pass through a symbolic-link member of the archive are rejected")
+    ctx.rule("C18.R6-writes-after-the-manifest", "a file written into <instance>/<folder> after the manifest was applied goes into a directory "
+             "that this deployment created itself (os.makedirs without exist_ok) or whose real path was tested to be beneath the "
+             "instance directory: the manifest may have made that folder a link")
     ctx.rule("C18.R4-error-type", "offending inputs are rejected with DataReferenceCouldNotStageError / PackageCreateError (or a manifest syntax error)")
     ctx.assume("tarfile/shutil/os semantics are as documented; links inside the destination are in scope only as far as the "
                "containment test must resolve them (realpath) - who created them is not analysed")
@@ -179,7 +201,8 @@ def run(ctx) -> None:
             ctx.ob("C18.R1-archive-members", call, True, "extraction uses the safe filter %r" % flt[0].value.value)
             continue
         loops = [n for n in cfg.nodes if n.kind == "for" and isinstance(n.ast.iter, ast.Call) and last_attr(n.ast.iter) == "getmembers"]
-        loops += [n for n in cfg.nodes if n.kind == "for" and isinstance(n.ast.iter, ast.Name) and n.ast.iter.id in ("tar", "archive_file")]
+        loops += [n for n in cfg.nodes if n.kind == "for" and isinstance(n.ast.iter, ast.Name) and (n.ast.iter.id in ("tar", "archive_file") or any(
+            isinstance(v, ast.Call) and last_attr(v) == "getmembers" for v in local_defs(sr, n.ast.iter.id)))]
         dom = [lp for lp in loops if cfg.every_path_to_passes(en, gates=[lp])]
         ok = bool(dom)
         ctx.ob("C18.R1-archive-members", call, ok, "every member is inspected before extraction" if ok else
@@ -199,7 +222,7 @@ def run(ctx) -> None:
                    "member names: " + why if ok else
                    "member names: %s - an archive member such as '../escaped.txt' is written outside the working directory" % why)
         # link members
-        link_checks = [n for n in ast.walk(lp) if isinstance(n, ast.Call) and last_attr(n) in ("issym", "islnk")]
+        link_checks = [n for n in ast.walk(lp) if isinstance(n, ast.Call) and last_attr(n) in ("issym", "islnk") and live_node(cfg, n)]
         link_tests = [c for c in tests if mentions_source(sr, c.call, lambda n: isinstance(n, ast.Attribute) and n.attr in ("linkname", "linkpath"))]
         reject_links = False
         for lc in link_checks:
@@ -218,6 +241,55 @@ def run(ctx) -> None:
                ("symlink/hardlink members are not examined: a link member pointing outside the working directory (followed "
                 "by a member written through it) escapes the component directory" if not link_tests and not link_checks else why),
                construct="link members (issym/islnk) checked")
+
+    # ---------------- R5 -------------------------------------------------------------------------------
+    for en in extracts:
+        call = [c for c in own_calls(en.ast) if last_attr(c) in ("extractall", "extract")][0]
+        flt = [k for k in call.keywords if k.arg == "filter"]
+        if flt and ((isinstance(flt[0].value, ast.Constant) and flt[0].value.value in ("data", "tar"))
+                    or (dotted(flt[0].value) or "").split(".")[-1] in ("data_filter", "tar_filter")):
+            ctx.ob("C18.R5-archive-own-links", call, True, "extraction re-checks every member at extraction time (safe filter)")
+            continue
+        loops = [n for n in source.walk_own(sr) if isinstance(n, ast.For) and (
+            (isinstance(n.iter, ast.Call) and last_attr(n.iter) == "getmembers") or
+            (isinstance(n.iter, ast.Name) and any(isinstance(v, ast.Call) and last_attr(v) == "getmembers" for v in local_defs(sr, n.iter.id))) or
+            (isinstance(n.iter, ast.Name) and n.iter.id in ("tar", "archive_file")))
+            and any(isinstance(x, ast.Raise) for x in ast.walk(n))]
+        # (B) extraction member by member inside the checking loop
+        if any(any(call is x for x in ast.walk(lp)) for lp in loops):
+            ctx.ob("C18.R5-archive-own-links", call, True, "each member is extracted right after it was checked, so earlier links are on disk")
+            continue
+        # (C) the names of the archive's symbolic links are collected and consulted
+        link_sets = [nm for nm in match.locals_where(sr, lambda v: isinstance(v, (ast.Call, ast.SetComp, ast.ListComp)) and any(
+            isinstance(g, ast.comprehension) and any(isinstance(c, ast.Call) and last_attr(c) == "issym" for t in g.ifs for c in ast.walk(t))
+            for g in ast.walk(v)))]
+        helpers = {f.name for f in source.walk_own(sr) if isinstance(f, ast.FunctionDef) and set(source.names_in(f)) & set(link_sets)}
+
+        def consults_links(test: ast.AST) -> bool:
+            return any((isinstance(x, ast.Name) and x.id in link_sets) or
+                       (isinstance(x, ast.Call) and isinstance(x.func, ast.Name) and x.func.id in helpers) for x in ast.walk(test))
+        name_ok = link_ok = False
+        for lp in loops:
+            mvar = lp.target.id if isinstance(lp.target, ast.Name) else None
+            for iff in [x for x in ast.walk(lp) if isinstance(x, ast.If) and any(live_node(cfg, a) for a in ast.walk(x.test) if isinstance(a, (ast.Call, ast.Compare, ast.Name)))]:
+                if not consults_links(iff.test) or not any(isinstance(x, ast.Raise) for st_ in iff.body for x in ast.walk(st_)):
+                    continue
+                about_link = mentions_source(sr, iff.test, lambda n_: isinstance(n_, ast.Attribute) and n_.attr in ("linkname", "linkpath"))
+                if about_link:
+                    link_ok = True
+                elif mentions_source(sr, iff.test, lambda n_: isinstance(n_, ast.Attribute) and n_.attr in ("name", "path")
+                                     and isinstance(n_.value, ast.Name) and n_.value.id == mvar):
+                    name_ok = True
+        ok = bool(link_sets) and name_ok and link_ok
+        ctx.ob("C18.R5-archive-own-links", call, ok,
+               "member names and link targets that pass through a symbolic link of the archive are rejected before extraction" if ok else
+               "all members are validated with realpath() before anything is extracted, and %s: the archive's own links are not on "
+               "disk yet, so members 'b -> .' and 'b/b/../../x' (or 'b -> .', 'a -> b/b/b/../../..', 'a/x') pass the check and are "
+               "written above the working directory" % (
+                   "the archive's symbolic-link members are not collected" if not link_sets else
+                   "member names are not tested against the archive's own links" if not name_ok else
+                   "link targets are not tested against the archive's own links"),
+               construct=short(call, 40) + " <- archive's own links")
 
     # ---------------- R2 -------------------------------------------------------------------------------
     sinks = match.nodes_calling(cfg, lambda c: call_name(c) in ("shutil.copytree", "shutil.copy", "shutil.copy2", "shutil.copyfile", "os.symlink", "os.link"))
@@ -311,6 +383,42 @@ def run(ctx) -> None:
                "the joined manifest target passes a normalising containment test%s" % (" (in Manifest.validate)" if in_validate and not dominated else "") if ok else
                "%s writes to os.path.join(targetPath, <manifest key>) and %s: a key such as '../x' creates entries outside the "
                "new instance directory" % (call_name(c), why_bad), construct=short(c, 80) + " <- containment of the manifest key")
+
+    # ---------------- R6 -------------------------------------------------------------------------------
+    WRITES = ("shutil.copyfile", "shutil.copy", "shutil.copy2", "shutil.move", "open")
+    late = [n for n in c2.nodes if n.kind in ("stmt", "with") and n.ast is not None and not any(n.ast is x for x in ast.walk(lp))
+            and any(call_name(c) in WRITES for c in own_calls(n.ast))]
+    n6 = 0
+    for wn in late:
+        for c in [c for c in own_calls(wn.ast) if call_name(c) in WRITES]:
+            dst = c.args[1] if call_name(c) != "open" and len(c.args) > 1 else (c.args[0] if c.args else None)
+            if dst is None:
+                continue
+            # the directory: a local defined as os.path.join(<target>, '<constant folder>')
+            dirs = [x.id for x in ast.walk(dst) if isinstance(x, ast.Name) and any(
+                isinstance(v, ast.Call) and call_name(v) == "os.path.join" and len(v.args) == 2 and isinstance(v.args[1], ast.Constant)
+                for v in local_defs(ep, x.id))]
+            if not dirs:
+                continue
+            dname = dirs[0]
+            n6 += 1
+            made = [n for n in c2.nodes if n.kind == "stmt" and n.ast is not None and any(
+                call_name(k) in ("os.makedirs", "os.mkdir") and k.args and isinstance(k.args[0], ast.Name) and k.args[0].id == dname
+                and not any(kw.arg == "exist_ok" and not (isinstance(kw.value, ast.Constant) and kw.value.value is False) for kw in k.keywords)
+                for k in own_calls(n.ast))]
+            dpred = lambda n_, dname=dname: isinstance(n_, ast.Name) and n_.id == dname
+            conts = [t for t in live(c2, containment_tests(ep)) if mentions_source(ep, t.call, dpred) and containment_quality(ep, t, dpred)[0]]
+            tnodes = [n for n in c2.nodes if n.kind == "test" and any(n.ast is t.compare for t in conts)]
+            ok = c2.every_path_to_passes(wn, gates=made + tnodes)
+            ctx.ob("C18.R6-writes-after-the-manifest", c, ok,
+                   "'%s' is created by this deployment or tested to be beneath the instance directory before the file is written" % dname if ok else
+                   "%s writes into '%s' after the manifest was applied, on a path where that folder was neither created by this "
+                   "deployment nor tested (realpath) to be beneath the instance directory: a manifest entry '%s: <dir>:link' makes it "
+                   "a link, and the file is created in (or overwrites a file of) <dir>" % (
+                       call_name(c), dname, next((v.args[1].value for v in local_defs(ep, dname) if isinstance(v, ast.Call)
+                                                  and len(v.args) == 2 and isinstance(v.args[1], ast.Constant)), "conf")),
+                   construct="%s into %s <- created here or contained" % (call_name(c), dname))
+    ctx.floor("C18.R6-writes-after-the-manifest", n6, 1, "file writes after the manifest loop of expandPackageToDirectory")
 
     # ---------------- R4 -------------------------------------------------------------------------------
     # StageReference: raises in the extract branch are of a class caught by the converting handler
